@@ -80,6 +80,9 @@ pub fn one_case(r: &mut Rng, silent: &Arc<Mutex<Option<String>>>) -> Case {
         _ => cfg,
     };
     let kthread = mode == 2;
+    // The completion queue size is a separate builder setting; it must not change how the
+    // submission queue is laid out.
+    let cfg = if r.chance(1, 3) { cfg.with_completion_queue_size(len * *r.pick(&[1u32, 2, 4])) } else { cfg };
     let ring = cfg.build().expect("ring on the simulated kernel");
     let ring_fd = simk::with(|s| s.fd);
     simk::with(|s| s.sqpoll_auto = false);
